@@ -23,7 +23,7 @@ ASSUMPTIONS = [
     "uniqueness is checked the way Excel compares names (case-insensitively) and exactly",
 ]
 FORBIDDEN = set(":\\/?*[]")
-ZONE_NAMES = ["A", "Area B", "Plant-1/Unit x", "#2 Line", 'Tank, "big"; no 3']
+ZONE_NAMES = ["A", "Area B", "Plant-1/Unit x", "#2 Line", 'Tank, "big"; no 3', "NA", "None"]
 
 
 def csv_text(rows):
@@ -131,7 +131,8 @@ def chan_cases(tier, inst):
     for ms in P.stream_multisets(inst, 3, 2, cps=(1, 2) if tier == "thorough" else (1,), dts=(1,), iso=True):
         n = len(ms)
         for zi, zones in enumerate([[ZONE_NAMES[0]] * n, [ZONE_NAMES[1], ZONE_NAMES[2]][:n] if n == 2 else [ZONE_NAMES[2]],
-                                    [ZONE_NAMES[3], ZONE_NAMES[4]][:n] if n == 2 else [ZONE_NAMES[3]]]):
+                                    [ZONE_NAMES[3], ZONE_NAMES[4]][:n] if n == 2 else [ZONE_NAMES[3]],
+                                    [ZONE_NAMES[5], ZONE_NAMES[6]][:n]]):        # names that spreadsheet software reads as "missing"
             for ui in range(3):
                 k += 1
                 if tier == "quick" and (k % 3 != 0):
@@ -146,7 +147,8 @@ def chan_run(case, res: Result):
 
     inst = tuple(case["inst"])
     prob = A.problem([tuple(s) for s in case["streams"]], case["zones"], utilities=usets(inst)[case["uset"]],
-                     names=[f"Str {chr(65 + i)}" if case["zones"][0] != ZONE_NAMES[3] else f"Cooler #{i + 1}, 'x'" for i in range(len(case["streams"]))])
+                     names=[["null", "N/A"][i] if case["zones"][0] == ZONE_NAMES[5] else
+                            (f"Str {chr(65 + i)}" if case["zones"][0] != ZONE_NAMES[3] else f"Cooler #{i + 1}, 'x'") for i in range(len(case["streams"]))])
     ref = numbers(pinch_analysis_service(copy.deepcopy(prob)))
     tmp = tempfile.mkdtemp(prefix="c16_", dir="/var/tmp")
     n_tr = 1
@@ -400,7 +402,7 @@ SUBCHECKS = {
         describe="the same logical problem through 11 further channels (service with model / value-with-unit / only the supply temperatures wrapped / re-read JSON; wrapper with model, JSON, JSON via constructor, CSV directory, CSV pair, XLSX, XLSX with an empty spacer row) vs the service on the plain dict",
         rule="case = (streams, zones, utility set); transitions = 12 channel executions; non-trivial = >=2 zones and >=1 explicit utility; outcomes = distinct reference results",
         cases=chan_cases, run=chan_run,
-        bound=lambda t: "every third of (multisets <=2 of 9 types x 2 zone namings x 3 utility sets)" if t == "quick" else "multisets <=2 of 18 types x 2 zone namings x 3 utility sets",
+        bound=lambda t: "every third of (multisets <=2 of 9 types x 4 zone namings x 3 utility sets)" if t == "quick" else "multisets <=2 of 18 types x 4 zone namings x 3 utility sets",
     ),
     "wrapper": SubCheck(
         name="wrapper",
